@@ -12,4 +12,42 @@ theorem resolves_final (c : WCfg) (st : WSt) (hinv : StrInv st) (hu : c.useStrtb
     Resolves (strtblBytes (finalTbl c st)) st.strtbl :=
   (resolves_of_offs _ (finalTbl_offs c st hinv)).mono (finalTbl_prefix c st hu)
 
+
+/-! ### Reading the whole document back -/
+
+/-- The reader context a header selects resolves the encoder's final table. -/
+theorem DocRes.resolves {cfg lang r bs d st} (h : DocRes cfg lang r bs d st) (pcfg : PCfg) :
+    Resolves (headerCtx pcfg d.hdr lang).tbl st.strtbl := by
+  have htb : (headerCtx pcfg d.hdr lang).tbl = strtblBytes (finalTbl (dcfgOf cfg lang) st) := h.tblBytes
+  rw [htb]
+  intro e he hn
+  exact resolves_of_offs _ (finalTbl_offs _ _ h.inv) e (finalTbl_mem_of_body _ _ h.no e he) hn
+
+/-- **The specification's reading of the output is the source view** — plain trees (no CDATA, no
+    embedded document) of plain languages (no typed content, alias-free tables). -/
+theorem DocRes.denotes {cfg lang r bs d st} (h : DocRes cfg lang r bs d st) (hl : langOk lang = true)
+    (hpn : plainNode r = true) (hpl : plainLang lang = true) (hnta : noTypedAttr lang.id = true)
+    (hvs : valSemOk lang = true) (has : attrSemOk lang = true) (hts : tagSemOk lang = true)
+    (han : attrNameSemOk lang = true)
+    (pcfg : PCfg) (hlang : headerLang pcfg d.hdr = some lang) :
+    opqsDoc d = [] ∧ (Spec.events pcfg d).flatMap toks = srcToks (dcfgOf cfg lang) r := by
+  have hf := docStartW_fields (dcfgOf cfg lang) r
+  obtain ⟨_, hnoq, hview⟩ := h.view hpn (by rw [dcfgOf_lang]; exact hpl) (by rw [dcfgOf_lang]; exact hnta)
+    hf.2.2.2.2.2 (by rw [hf.2.2.2.1]; rfl)
+  have hrd : Rd (dcfgOf cfg lang) st.strtbl (headerCtx pcfg d.hdr lang) :=
+    ⟨by simp [headerCtx], h.resolves pcfg, by rw [dcfgOf_lang]; exact hl, by rw [dcfgOf_lang]; exact hvs,
+      by rw [dcfgOf_lang]; exact has, by rw [dcfgOf_lang]; exact hts, by rw [dcfgOf_lang]; exact han,
+      by rw [dcfgOf_lang]; exact hnta⟩
+  constructor
+  · unfold opqsDoc
+    rw [h.pre, h.post]
+    rw [opqsItems_single, opqsItem_elem] at hnoq
+    simp [opqsAttrs, hnoq]
+  · have hv := hview (headerCtx pcfg d.hdr lang) hrd none
+    rw [hf.2.1, hf.2.2.1, evItems_single_events, evItem_elem] at hv
+    unfold Spec.events
+    rw [hlang, h.pre, h.post]
+    simp only [evPis, List.nil_append, List.flatMap_cons, List.flatMap_append, List.flatMap_nil, toks,
+      List.append_nil, hv]
+
 end Wbxml.Lemmas.EncW
